@@ -25,6 +25,12 @@ def run(run):
             run.notes.append('concept sets differ (see C03); context skipped')
             continue
         k = len(cs)
+        if run.evaluations % 2 == 0:
+            # traversals abandoned after a few items must leave nothing behind for later ones
+            for kind_ in ('upset', 'downset'):
+                it_ = getattr(cs[0] if kind_ == 'upset' else cs[-1], kind_)()
+                next(it_, None), next(it_, None), next(it_, None)
+                del it_
         seeds = [[a] for a in range(k)]
         seeds += [[a, b] for a in range(k) for b in range(k)] if k <= (9 if run.tier == 'quick' else 16) else \
             [[rng.randrange(k), rng.randrange(k)] for _ in range(60)]
